@@ -441,6 +441,39 @@ def r18_14(run, model):
                    "`Method to_string not found`")
 
 
+def r18_15(run, model):
+    run.rule("R18.15", "a generated body reads its receiver once: in derive.rs every use of the parameter `self` as a value stands outside the "
+                       "iterations over the fields or variants of the definition (the fields are taken apart by one pattern, the variants by "
+                       "one match) - a `let f = self.f` per field rebinds names one after the other, and a field called `self` then stands "
+                       "for the receiver in every later read")
+    DER = "crates/compiler/src/derive.rs"
+    n = 0
+    for f in model.fns(DER):
+        if f.body is None:
+            continue
+        par = None
+        k_ = 0
+        for c in S.walk(f.body):
+            if c["k"] != "Call" or S.callee_name(c) != "var_expr" or "SELF_PARAM_NAME" not in S.idents(c):
+                continue
+            if par is None:
+                par = S.Parents(f.body)
+            n += 1
+            k_ += 1
+            per = None
+            for a in par.ancestors(c):
+                if a["k"] == "For" and re.search(r"\.(fields|variants)\b", S.norm_ws(run.facts.text(DER, a["iter"]["sp"]))):
+                    per = a
+                if a["k"] == "Closure":
+                    call = par.parent(a)
+                    if call is not None and call["k"] == "MethodCall" and re.search(r"\.(fields|variants)\b", S.norm_ws(run.facts.text(DER, call["recv"]["sp"]))):
+                        per = a
+            run.ob("R18.15", f"{f.name}|receiver read #{k_} is outside the per-field iteration", per is None, site(DER, c["sp"]),
+                   "read once for the whole body" if per is None else f"read once per element of the iteration at line {per['sp'][0]}",
+                   witness="#[derive(ToJson)] struct Outer { self: Inner, n: int32 }: to_json renders Inner's n in place of Outer's n")
+    run.floor("reads of the receiver in derive.rs", n, 3)
+
+
 def run(run, model):
     run.try_rule(r18_1, model)
     run.try_rule(r18_2, model)
@@ -455,6 +488,10 @@ def run(run, model):
     run.try_rule(r18_12, model)
     run.try_rule(r18_13, model)
     run.try_rule(r18_14, model)
+    run.try_rule(r18_15, model)
+    # the leaves of both renderings go through the runtime's *_to_string helpers (shared with C10 R10.4)
+    from rules import c10 as _c10
+    run.try_rule(_c10.r10_4, model)
     from rules import c05
     run.rule("R18.9", "binders of generated code are distinct variables (shared with C05 R05.6: every binder id is fresh, never interned by syntax pointer)")
     run.try_rule(c05.r05_6, model)
